@@ -272,10 +272,10 @@ def _rc_system(error=False, cancelled=False):
     rc.cfg = actors.Cfg()
     rc.mechanic = s.create(actors.Endpoint, parent=rc_addr)
     rc.main_driver = s.create(actors.Endpoint, parent=rc_addr)
-    co = object.__new__(racecontrol.BenchmarkCoordinator)
+    # built by its own constructor (its flags are its business); earlier failures / cancellations are brought about through the
+    # actor's real handlers below, not by writing attributes
+    co = racecontrol.BenchmarkCoordinator(rc.cfg)
     co.logger = rc.logger
-    co.cfg = rc.cfg
-    co.error, co.cancelled = error, cancelled
     co.calls = []
 
     class Store:
@@ -303,6 +303,15 @@ def _rc_system(error=False, cancelled=False):
     co.on_preparation_complete = lambda *a: co.calls.append("on_preparation_complete")
     rc.coordinator = co
     s.caller, s.rc_addr, s.rcactor, s.co = caller, rc_addr, rc, co
+    s.had_error, s.had_cancel = error, cancelled
+    if error:
+        rc.receiveMessage(actor.BenchmarkFailure("an earlier failure", None), rc.main_driver)
+    if cancelled:
+        rc.receiveMessage(actor.BenchmarkCancelled(), rc.main_driver)
+    if error or cancelled:
+        del s.sent[:]
+        for k in list(s.chan):
+            del s.chan[k]
     return s
 
 
@@ -473,14 +482,10 @@ def forwarding(sl):
         out = [(x[0], x[1]) for x in outgoing(s)]
         want = type(msg).__name__
         observe("race control answers its caller with the failure / cancellation", ((s.rc_addr.addressDetails, s.caller.addressDetails), want) in out)
-        if kind.endswith("Cancelled"):
-            observe("cancelled flag set", s.co.cancelled)
-        else:
-            observe("error flag set", s.co.error)
-            with rc_env(s):
-                s.co.on_benchmark_complete(None)
-            observe("a BenchmarkComplete that still arrives afterwards publishes no results",
-                    not ({"calculate_results", "store_race", "store_results", "summarize"} & set(s.co.calls)))
+        with rc_env(s):
+            s.co.on_benchmark_complete(None)
+        observe("a BenchmarkComplete that still arrives after a failure or a cancellation publishes no results",
+                not ({"calculate_results", "store_race", "store_results", "summarize"} & set(s.co.calls)))
         observe("never Success", not any(x[1] == "Success" for x in out))
     core.trace("kind", kind)
 
@@ -546,13 +551,108 @@ def failed_run(sl):
 # ------------------------------------------------------------------------------------------------------------------
 # (v) gating
 # ------------------------------------------------------------------------------------------------------------------
+def adapter_error_policy(sl):
+    """real AsyncIoAdapter.run for one worker that drives two clients with different tasks of a parallel element: the error policy is
+    the one of each client's OWN task (global on-error x the task's ignore-response-error-level); a failing request of a strict task
+    aborts the run under on-error=abort whatever its sibling tolerates"""
+    import asyncio
+    import threading
+
+    from esrally.client import context as client_context
+
+    global_abort = bool(fresh_bool("global_on_error_is_abort"))
+    lenient = [bool(fresh_bool("task_%d_ignores_non_fatal_errors" % i)) for i in range(2)]
+    fails = [bool(fresh_bool("request_of_task_%d_fails" % i)) for i in range(2)]
+    tasks = [track.Task("t%d" % i, track.Operation("op%d" % i, "verif-op"), clients=1, warmup_iterations=0, iterations=1,
+                        params={"ignore-response-error-level": "non-fatal"} if lenient[i] else {}) for i in range(2)]
+    matrix = driver.Allocator([track.Parallel(tasks)]).allocations
+    ca = driver.ClientAllocations()
+    for k, row in enumerate(matrix):
+        ca.add(k, row)
+
+    class EsStub(client_context.RequestContextHolder):
+        def __init__(self, client_id):
+            self.client_id = client_id
+
+        async def close(self):
+            pass
+
+    class Factory:
+        def __init__(self, hosts, options, distribution_version=None, distribution_flavor=None):
+            pass
+
+        def create_async(self, api_key=None, client_id=None):
+            return EsStub(client_id)
+
+    class ClientNs:
+        EsClientFactory = Factory
+
+    class Source:
+        infinite = True
+
+        def partition(self, i, n):
+            return self
+
+        def params(self):
+            return {}
+
+    class TrackNs:
+        @staticmethod
+        def operation_parameters(t, task):
+            return Source()
+
+        def __getattr__(self, name):
+            return getattr(track, name)
+
+    class Rn:
+        completed = None
+        percent_completed = None
+
+        def __init__(self, op_type):
+            pass
+
+        async def __aenter__(self):
+            return self
+
+        async def __aexit__(self, *a):
+            return False
+
+        async def __call__(self, es, params):
+            es["default"].on_request_start()
+            es["default"].on_request_end()
+            i = es["default"].client_id
+            return {"weight": 1, "unit": "ops", "success": not fails[i], "error-type": "bulk"}
+
+    class Hosts:
+        all_hosts = {"default": [{"host": "localhost", "port": 9200}]}
+
+    from harness.common import StubCfg
+    cfg = StubCfg({("driver", "profiling"): False, ("driver", "assertions"): False, ("system", "async.debug"): False, ("client", "hosts"): Hosts,
+                   ("client", "options"): {"default": {}}, ("mechanic", "distribution.version"): None, ("mechanic", "distribution.flavor"): None})
+    contexts = {k: type("Ctx", (), {"api_key": None})() for k in range(len(matrix))}
+    allocs = ca.tasks(1)
+    sampler = driver.Sampler(start_timestamp=0)
+    with shadowed(driver, (), extra={"client": ClientNs, "track": TrackNs()}), shadowed(driver.runner, (), extra={"runner_for": Rn}):
+        adapter = actors.REAL["AsyncIoAdapter"](cfg, None, allocs, sampler, threading.Event(), threading.Event(), "abort" if global_abort else "continue", contexts, 0)
+        try:
+            asyncio.run(adapter.run())
+            how, err = "ret", None
+        except Exception as e:  # noqa: BLE001
+            how, err = "raise", e
+    must_abort = global_abort and any(fails[i] and not lenient[i] for i in range(2))
+    core.trace("abort", must_abort)
+    core.note("policy", {"global": "abort" if global_abort else "continue", "lenient": lenient, "fails": fails, "outcome": (how, repr(err)[:80])})
+    observe("the run fails iff on-error=abort and a request of a task that does not ignore non-fatal errors failed",
+            (how == "raise" and isinstance(err, exceptions.RallyError)) == must_abort and (how == "ret") == (not must_abort))
+
+
 def coordinator_gating(sl):
     s = _rc_system(error=bool(fresh_bool("error")), cancelled=bool(fresh_bool("cancelled")))
     with rc_env(s):
         s.co.on_benchmark_complete(None)
     core.note("calls", s.co.calls)
     core.trace("calls", len(s.co.calls))
-    ok = not s.co.error and not s.co.cancelled
+    ok = not s.had_error and not s.had_cancel
     for c in ("calculate_results", "add_results", "store_race", "store_results", "summarize"):
         observe("%s iff neither error nor cancelled" % c, (c in s.co.calls) == ok)
     observe("metrics are taken over and the store is closed in every case", s.co.calls[0] == "bulk_add" and s.co.calls[-1] == "close")
@@ -795,6 +895,10 @@ HARNESSES = [
             assumptions=["INV of C01 on the pre-state"], doc="(iii) wake-up of a worker whose run failed or was cancelled, from every INV state"),
     Harness("execute_single_policy", c04.abort_policy, "symbolic", lambda tier: [{"throttled": t} for t in (True, False)], reads=READS,
             stubs=c04.STUBS, real_valued=True, doc="(iv) request errors under on-error=abort and fatal connection errors end the run with an error (shared with C04)"),
+    Harness("adapter_error_policy", adapter_error_policy, "bounded-exhaustive", lambda tier: [{}], reads=READS + [actors.REAL["AsyncIoAdapter"].run, track.Task.error_behavior],
+            stubs=["EsClientFactory, track.operation_parameters, runner registry (stub runner with a solver-chosen unsuccessful result per task)"],
+            bounds={"tasks": "2 single-client tasks of one parallel element driven by one worker", "policy": "global abort/continue x per-task ignore-response-error-level"},
+            doc="per-task error policy through the real AsyncIoAdapter"),
     Harness("coordinator_gating", coordinator_gating, "symbolic", lambda tier: [{}], reads=READS, stubs=STUBS, doc="(v) no results on error or cancel"),
     Harness("race_result", race_result, "symbolic", lambda tier: [{}], reads=READS, stubs=STUBS, doc="(v) race() raises for a failure result"),
 ]
